@@ -171,6 +171,22 @@ func (e *Exec) modelFor(extra *Term) (string, map[string]string) {
 	e.solver.Assert(extra)
 	r := e.solver.Check()
 	if r == "sat" {
+		if len(e.nice) > 0 {
+			// prefer a replay-friendly model (does not affect the verdict)
+			e.solver.Push()
+			for _, n := range e.nice {
+				e.solver.Assert(n)
+			}
+			if e.solver.Check() == "sat" {
+				m := e.model()
+				e.solver.Pop()
+				return r, m
+			}
+			e.solver.Pop()
+			if e.solver.Check() != "sat" {
+				return "unknown", nil
+			}
+		}
 		return r, e.model()
 	}
 	if r == "unknown" {
@@ -499,6 +515,13 @@ func init() {
 		n := a[1].(*Term)
 		x := toBlob(b.S)
 		return ret(tAnd(tNot(b.Nil), mkUF("jsonUint", SBool, x), tEq(mkUF("juint", SBV(64), x), n), tNe(x, mkStr(""))))
+	}
+	stubs[p+"verifPrefer"] = func(e *Exec, th *Thread, c *CallCtx, a []Val) StubRes {
+		e.nice = append(e.nice, a[0].(*Term))
+		return ret(nil)
+	}
+	stubs[p+"verifIfI64"] = func(e *Exec, th *Thread, c *CallCtx, a []Val) StubRes {
+		return ret(tIte(a[0].(*Term), a[1].(*Term), a[2].(*Term)))
 	}
 	stubs[p+"verifSymbolic"] = func(e *Exec, th *Thread, c *CallCtx, a []Val) StubRes {
 		return ret(tTrue)
